@@ -79,6 +79,9 @@ def build(ld, prog, fns=None, stage_prefix='s', hook=None):
         # optional arguments are passed positionally at odd positions of a
         # program and by keyword at even ones (both are public call forms)
         pos = i % 2 == 1
+        # ... and boolean flags as Python bools or as numpy bools (what a
+        # comparison on arrays returns), in turn
+        B = (lambda v: np.bool_(v)) if i % 3 == 2 else (lambda v: v)
         operand_ds = operand_m = None
         if k in BINARY:
             spec = op[1]
@@ -119,8 +122,8 @@ def build(ld, prog, fns=None, stage_prefix='s', hook=None):
         elif k == 'filter':
             ds = ds.filter(fns.pred(op[1], stage))
         elif k == 'efilter':
-            ds = ds.filter(fns.pred(op[1], stage), False) if pos else \
-                ds.filter(fns.pred(op[1], stage), lazy=False)
+            ds = ds.filter(fns.pred(op[1], stage), B(False)) if pos else \
+                ds.filter(fns.pred(op[1], stage), lazy=B(False))
         elif k == 'slice':
             kind, payload = op[1], op[2]
             if kind == 'slice':
@@ -176,8 +179,8 @@ def build(ld, prog, fns=None, stage_prefix='s', hook=None):
         elif k == 'key_zip':
             ds = ds.key_zip(operand_ds)
         elif k == 'batch':
-            ds = ds.batch(op[1], op[2]) if pos else \
-                ds.batch(batch_size=op[1], drop_last=op[2])
+            ds = ds.batch(op[1], B(op[2])) if pos else \
+                ds.batch(batch_size=op[1], drop_last=B(op[2]))
         elif k == 'unbatch':
             ds = ds.unbatch()
         elif k == 'batch_map':
@@ -188,17 +191,17 @@ def build(ld, prog, fns=None, stage_prefix='s', hook=None):
             ds = ds.tile(op[1])
         elif k == 'tile_shuffle':
             np.random.seed(op[2])
-            ds = ds.tile(op[1], True) if pos else ds.tile(reps=op[1], shuffle=True)
+            ds = ds.tile(op[1], B(True)) if pos else ds.tile(reps=op[1], shuffle=B(True))
         elif k == 'cycle':
             ds = ds.cycle()
         elif k == 'shuffle':
             ds = ds.shuffle(False, ScriptedRandomState(scripted_perm(op[1]))) if pos else \
                 ds.shuffle(reshuffle=False, rng=ScriptedRandomState(scripted_perm(op[1])))
         elif k == 'sort':
-            ds = ds.sort(fns.sortkey(stage), sorted, op[1]) if pos else \
-                ds.sort(fns.sortkey(stage), reverse=op[1])
+            ds = ds.sort(fns.sortkey(stage), sorted, B(op[1])) if pos else \
+                ds.sort(fns.sortkey(stage), reverse=B(op[1]))
         elif k == 'sort_keyless':
-            ds = ds.sort(None, sorted, op[1]) if pos else ds.sort(reverse=op[1])
+            ds = ds.sort(None, sorted, B(op[1])) if pos else ds.sort(reverse=B(op[1]))
         elif k == 'shard':
             ds = ds.shard(op[1], op[2]) if pos else \
                 ds.shard(num_shards=op[1], shard_index=op[2])
@@ -207,13 +210,13 @@ def build(ld, prog, fns=None, stage_prefix='s', hook=None):
         elif k == 'cache':
             ds = ds.cache()
         elif k == 'ecache':
-            ds = ds.cache(False) if pos else ds.cache(lazy=False)
+            ds = ds.cache(B(False)) if pos else ds.cache(lazy=B(False))
         elif k == 'catch':
             ds = ds.catch()
         elif k == 'copy':
             ds = ds.copy()
         elif k == 'freeze':
-            ds = ds.copy(True) if pos else ds.copy(freeze=True)
+            ds = ds.copy(B(True)) if pos else ds.copy(freeze=B(True))
         elif k == 'prefetch1':
             ds = ds.prefetch(1, op[1]) if pos else \
                 ds.prefetch(num_workers=1, buffer_size=op[1])
